@@ -4,7 +4,7 @@ from simkit.gen_hier import hier_config, Builder, ScriptGen
 from simkit.model import scan, Snapshot
 from simkit.oracles.elab import Elab, partition_diff
 from simkit.oracles.links import check_links
-from simkit.oracles.mirror import check_mirror
+from simkit.oracles.mirror import check_mirror, check_wire_endpoints
 from simkit.oracles.naming import lookup_answers
 from simkit.violation import Violation
 from simkit.world import kind_of
@@ -57,6 +57,7 @@ class C08(Prop):
         cfg["gc_between"] = rng.random() < 0.3
         cfg["uniq_names"] = rng.choice([0.0, 0.0, 0.5, 0.9])
         cfg["restart"] = rng.random() < 0.3
+        cfg["late_pins"] = 0 if cfg["restart"] else rng.choice([0, 0, 0.4])
         if cfg["restart"]:
             cfg["acyclic_libs"] = True
             cfg["orphan_instance"] = False
@@ -166,6 +167,7 @@ class C08(Prop):
         objs, _ = scan(w.roots() + [n])
         check_links(objs, disc, w.name_of, P="C08.wellformed")
         check_mirror(objs, disc, w.name_of, P="C08.wellformed")
+        check_wire_endpoints(n, disc, w.name_of, P="C08.wellformed")
         # new definitions: same library as the original, immediately after it, fresh unique name, findable
         for lib in n.libraries:
             names = {}
